@@ -3,6 +3,7 @@
 package api
 
 import (
+	"net/url"
 	"errors"
 	"net/http/httptest"
 	"strings"
@@ -50,7 +51,11 @@ func (p *verifProject) GetHostName() (string, error) {
 	return "host", p.rec("GetHostName", "", 0, 0)
 }
 func (p *verifProject) GetProjectState(checkMem bool) (*types.ProjectState, error) {
-	return &types.ProjectState{}, p.rec("GetProjectState", "", 0, 0)
+	a := 0
+	if checkMem {
+		a = 1
+	}
+	return &types.ProjectState{}, p.rec("GetProjectState", "", a, 0)
 }
 func (p *verifProject) GetLogLength() int { return 0 }
 func (p *verifProject) GetLogsAndSubscribe(name string, observer pclog.LogObserver) error {
@@ -115,7 +120,15 @@ func verifShouldBindJSON(c *gin.Context, obj any) error {
 	}
 	return nil
 }
-func verifDefaultQuery(c *gin.Context, key, def string) string { return def }
+// query values of the request (symgo: the stub below; natively the request URL carries them)
+var verifQueryVals map[string]string
+
+func verifDefaultQuery(c *gin.Context, key, def string) string {
+	if v, ok := verifQueryVals[key]; ok {
+		return v
+	}
+	return def
+}
 
 var verifRecorder *httptest.ResponseRecorder
 
@@ -315,5 +328,38 @@ func VerifC19_Numeric() {
 	} else {
 		verifAssert("ok.200", code == 200)
 	}
+	verifReach("end")
+}
+
+// C19 (query parameters): whatever a client puts into the withMemory query value of
+// GET /project/state - also something that is not a boolean - the server does not fail
+// internally: with a healthy runner the state is answered (200) after exactly one runner call,
+// and the flag passed on is true only for values that spell "true".
+func VerifC19_Query() {
+	prj := &verifProject{}
+	api := &PcApi{project: prj}
+	vals := []string{"<absent>", "true", "false", "1", "yes", "", "2", "true "}
+	v := vals[verifChoose(len(vals))]
+	verifShape("withMemory=" + v)
+	verifQueryVals = map[string]string{}
+	c := verifContext(map[string]string{}, "")
+	if v != "<absent>" {
+		verifQueryVals["withMemory"] = v
+		if verifNative() {
+			c.Request = httptest.NewRequest("GET", "/project/state?withMemory="+url.QueryEscape(v), nil)
+		}
+	}
+	api.GetProjectState(c) // REAL handler
+	code, n := verifStatus()
+	verifObserveInt("status", code)
+	verifAssert("one.response", n == 1)
+	verifAssert("no.5xx", code < 500)
+	verifAssert("state.answered", code == 200)
+	verifAssert("one.call", len(prj.calls) == 1)
+	if len(prj.calls) == 1 {
+		wantMem := v == "true" || v == "1"
+		verifAssert("flag.passed.on", (prj.calls[0].a == 1) == wantMem)
+	}
+	verifQueryVals = nil
 	verifReach("end")
 }
